@@ -1101,7 +1101,7 @@ func genC14(o genOpts) error {
 // c14-replay <kind> <hex...>: re-run one case on the implementation
 func c14Replay(args []string) int {
 	if len(args) < 2 {
-		fmt.Fprintln(os.Stderr, "usage: harness c14-replay did-parse <hex string> | did-decode <hex> | sig <hex> | verify <alg> <verifier hex> <msg hex> <sig hex>")
+		fmt.Fprintln(os.Stderr, "usage: harness c14-replay did-parse <hex string> | did-decode <hex> | sig <hex> | verify <alg> <verifier hex> <msg hex> <sig hex> | base <which> <hex> | signer-parse <alg> <hex string>")
 		return 2
 	}
 	unhex := func(s string) []byte { b, _ := hex.DecodeString(s); return b }
@@ -1117,6 +1117,38 @@ func c14Replay(args []string) int {
 		o := observeDID(d, err)
 		fmt.Printf("class=%s bytes=%x String()=%q String() returned=%v Parse(String())==d: %v Decode(Bytes())==d: %v err=%v\n",
 			[]string{"error", "key", "other"}[o.class], o.bytes, o.str, o.strOK, o.rtStr, o.rtByte, err)
+	case "base": // base <which> <hex input>: what the Go base58 / multibase library answers now
+		if len(args) < 3 {
+			return 2
+		}
+		in := unhex(args[2])
+		var out []byte
+		ok := true
+		switch args[1] {
+		case "0":
+			out, ok = b58decOracle(string(in))
+		case "1":
+			out, ok = mbDecodeOracle(string(in), "replay")
+		case "2":
+			out = []byte(b58encOracle(in))
+		default:
+			out = []byte(mb64encOracle(in))
+		}
+		fmt.Printf("ok=%v result=%x\n", ok, out)
+	case "signer-parse": // signer-parse <alg> <hex string>
+		if len(args) < 3 {
+			return 2
+		}
+		alg := 0
+		if args[1] == "1" {
+			alg = 1
+		}
+		sg, err := algParseSigner(alg, string(unhex(args[2])))
+		if err != nil {
+			fmt.Printf("Parse: error (%v)\n", err)
+		} else {
+			fmt.Printf("Parse: ok Encode()=%x DID=%s\n", sg.Encode(), sg.DID().String())
+		}
 	case "sig":
 		code, size, sok, raw, rok := observeSig(unhex(args[1]))
 		fmt.Printf("Code()=%#x Size()=%d (returned %v) Raw()=%x (returned %v)\n", code, size, sok, raw, rok)
